@@ -512,8 +512,65 @@ def rule_default(ctx) -> RuleResult:
     )
     seen, _receivers, _ = _load_path(ctx)
 
-    def io_read(e, al) -> bool:
-        return isinstance(e, ast.Call) and _func_name(e) == "_io_call" and bool(e.args) and al.text(e.args[0]).startswith("H5Reader")
+    W = ctx.p.cls("Workspace")
+    memo: dict = {}
+
+    def io_read(e, al, depth=0) -> bool:
+        """e reads a record of the file: `self._io_call(H5Reader.<fetch>, ...)`, or a method of the workspace that returns one"""
+        if not isinstance(e, ast.Call):
+            return False
+        if _func_name(e) == "_io_call":
+            return bool(e.args) and al.text(e.args[0]).startswith("H5Reader")
+        f = al.x(e.func)
+        if isinstance(f, ast.Attribute) and isinstance(f.value, ast.Name) and f.value.id in ("self", "cls") and depth < 3:
+            m = W.lookup(f.attr)
+            if m and m[1] == "method":
+                return returns_record(m[2], depth + 1)
+        return False
+
+    def records_of(fn, depth=0) -> set:
+        """locals of fn that hold (part of) a record read from the file: bound from a read, aliases, unpacked fields, items iterated"""
+        al0 = Alias(fn.node)
+        recs = set(bound_from(fn.node, lambda e: any(io_read(c, al0, depth) for c in ast.walk(e))))
+        changed = True
+        while changed:
+            changed = False
+            for n in ast.walk(fn.node):
+                src, tgt = None, None
+                if isinstance(n, ast.Assign) and isinstance(n.targets[0], (ast.Tuple, ast.List, ast.Name)):
+                    src, tgt = n.value, n.targets[0]
+                elif isinstance(n, ast.AnnAssign) and n.value is not None and isinstance(n.target, ast.Name):
+                    src, tgt = n.value, n.target
+                elif isinstance(n, ast.NamedExpr):
+                    src, tgt = n.value, n.target
+                elif isinstance(n, (ast.For, ast.comprehension)):
+                    src, tgt = n.iter, n.target
+                if src is None:
+                    continue
+                r = record_root(strip_view(src.func.value if isinstance(src, ast.Call) and isinstance(src.func, ast.Attribute) and src.func.attr in ("items", "values") else src))
+                if (isinstance(r, ast.Name) and r.id in recs) or io_read(r, al0, depth):
+                    for t in ast.walk(tgt):
+                        if isinstance(t, ast.Name) and t.id not in recs:
+                            recs.add(t.id)
+                            changed = True
+        return recs
+
+    def returns_record(m, depth) -> bool:
+        if id(m.node) in memo:
+            return memo[id(m.node)]
+        memo[id(m.node)] = False  # recursion guard
+        v = ctx.view(m)
+        al = Alias(v.node)
+        recs = records_of(v, depth)
+        out = False
+        for r in ast.walk(v.node):
+            if isinstance(r, ast.Return) and r.value is not None:
+                for cand in (r.value, al.x(r.value)):
+                    root = record_root(cand)
+                    if (isinstance(root, ast.Name) and root.id in recs) or io_read(root, al, depth):
+                        out = True
+        memo[id(m.node)] = out
+        return out
 
     def check(owner, name, fn, is_record_of):
         al = Alias(fn.node)
@@ -529,26 +586,7 @@ def rule_default(ctx) -> RuleResult:
                      "read down the 1.x path)")
 
     for nm, fn in sorted(seen.items()):
-        al0 = Alias(fn.node)
-        recs = set(bound_from(fn.node, lambda e, al0=al0: any(io_read(c, al0) for c in ast.walk(e))))
-        # what is drawn from a record is part of it: unpacked fields, items iterated
-        changed = True
-        while changed:
-            changed = False
-            for n in ast.walk(fn.node):
-                src, tgt = None, None
-                if isinstance(n, ast.Assign) and isinstance(n.targets[0], (ast.Tuple, ast.List)):
-                    src, tgt = n.value, n.targets[0]
-                elif isinstance(n, (ast.For, ast.comprehension)):
-                    src, tgt = n.iter, n.target
-                if src is None:
-                    continue
-                r = record_root(strip_view(src.func.value if isinstance(src, ast.Call) and isinstance(src.func, ast.Attribute) and src.func.attr in ("items", "values") else src))
-                if (isinstance(r, ast.Name) and r.id in recs) or io_read(r, al0):
-                    for t in ast.walk(tgt):
-                        if isinstance(t, ast.Name) and t.id not in recs:
-                            recs.add(t.id)
-                            changed = True
+        recs = records_of(fn)
 
         def is_record_of(al, recs=recs):
             def is_record(e):
@@ -626,7 +664,7 @@ def rule_element(ctx) -> RuleResult:
                 if n in reached or n is head:
                     continue
                 reached.add(n)
-                if n.kind in ("return", "raise") or n in (g.exit, g.rexit):
+                if n.kind in ("return", "raise") or n in (g.exit, g.rexit) or (n.kind == "break" and loop_of(n.stmt) is lp):
                     continue
                 succ = [(m, lab) for m, lab in n.succ if lab not in ("exc", "raise")]
                 if n.kind == "test" and n.ast is not None and not (bound_by(n) & names):
@@ -641,7 +679,7 @@ def rule_element(ctx) -> RuleResult:
                 work.extend(m for m, _ in succ)
             leaves = [n for n in reached if n.kind == "return" or n is g.exit or (n.kind == "break" and loop_of(n.stmt) is lp)]
             res.inst(f"Workspace.{nm}:{lp.lineno} loop loading elements: an element that fails to load skips that element only", nontrivial=True, ok=not leaves)
-            for n in leaves[:1]:
+            for n in sorted(leaves, key=lambda n: (n.lineno or 0, n.id))[:1]:
                 what = "return" if n.kind == "return" or n is g.exit else "break"
                 res.find("Workspace", nm, f"an element that cannot be loaded ends the loop over the elements ({what})", f"{fn.module.relpath}:{n.lineno or lp.lineno}",
                          f"when load_entity returns None for one listed element (its node, type link or a mandatory attribute is missing) the {what} leaves the loop"
